@@ -406,7 +406,7 @@ func (r *runner) worker() {
 	n := 0
 	for job := range r.jobs {
 		n++
-		if solver == nil || n%40 == 0 { // keep the incremental solver's definition table from growing without bound
+		if true { // a fresh incremental solver per case: accumulated definitional assertions slow every later query
 			solver.Close()
 			var err error
 			solver, err = NewSolver()
@@ -483,6 +483,22 @@ func (r *runner) runCase(job caseJob, solver *Solver) {
 	if fatal != "" {
 		r.inconclusive(res, "case "+ex.curCase+": "+fatal)
 		return
+	}
+	if os.Getenv("VS_TERMHIST") != "" {
+		hist := map[string]int{}
+		TT.mu.Lock()
+		for _, t := range TT.m {
+			k := opNames[t.Op]
+			if k == "" {
+				k = fmt.Sprintf("op%d", t.Op)
+			}
+			hist[fmt.Sprintf("%s/w%d", k, t.W)]++
+		}
+		TT.mu.Unlock()
+		fmt.Fprintln(os.Stderr, "termhist", hist)
+	}
+	if r.verbose {
+		fmt.Fprintf(os.Stderr, "[%s] case {%s} executed: steps=%d terms=%d asserts=%d %.2fs\n", h.Name, ex.curCase, ex.steps, TT.next, len(ex.asserts), time.Since(t0).Seconds())
 	}
 	r.discharge(h, res, ex, solver)
 	r.mu.Lock()
